@@ -313,6 +313,11 @@ func runC11(p *Program, r *Result) {
 
 	// ---- R11.6
 	r.Rule("R11.6", "the plugin recipient's label set is the plugin's labels arguments; a repeat is an error", 2)
+	checkPluginLabels(p, r)
+}
+
+// checkPluginLabels is rule R11.6 (shared with C16 R16.3).
+func checkPluginLabels(p *Program, r *Result) {
 	if pw := r.anchor(pkgPlugin, "Recipient", "WrapWithLabels"); pw != nil {
 		ptb := p.TB(pw)
 		// the labels result is a named result spilled to a local cell (the
